@@ -19,7 +19,7 @@ TRUSTED = ["spec/pddl_sem.py:sem_problem (independent reading incl. the type che
 ASSUMPTIONS = ["bounded: object-list shapes, fact/fluent/goal lists and corruptions enumerated in contracts/c05.py", "float(token) trusted for numerals"]
 
 DOMAIN = G.domain_text([("act", "?x - a ?y - a", "(and (p ?x))", "(and (q ?y))")], with_const=True).replace(
-    "(:predicates ", "(:predicates (bt ?x - a ?y - a ?z - b) ").replace("(:functions ", "(:functions (ft ?x - a ?y - a ?z - b) ")
+    "(:predicates ", "(:predicates (bt ?x - a ?y - a ?z - b) (ba ?x - b ?y - a) ").replace("(:functions ", "(:functions (ft ?x - a ?y - a ?z - b) ")
 OBJECT_LISTS = ["o1 - a o2 - b", "o1 o3 - a o2 - b", "o2 - b o1 - a o4", "o1 o2", "o1 - a", "", "o1 - a (:private o5 - b o6 - a) o2 - b",
                 "o1 - object o2 - b"]
 INITS = [[], ["(p o1)"], ["(p o1)", "(q o2)", "(r o1 o2)", "(g)"], ["(r o1 o1)"], ["(p k)", "(r k o1)"], ["(s o2)"],
@@ -27,11 +27,12 @@ INITS = [[], ["(p o1)"], ["(p o1)", "(q o2)", "(r o1 o2)", "(g)"], ["(r o1 o1)"]
          ["(= (f o1) 1234567.5)", "(= (c) 0.0001234567)", "(= (f o2) -98765.4321)"],
          ["(bt o1 o1 o2)", "(bt o2 o2 o2)"], ["(bt o1 o1 o1)"], ["(bt o1 o2 o2)", "(bt o2 o1 o2)"], ["(bt o2 o2 o1)"],
          ["(= (ft o1 o1 o2) 1)"], ["(= (ft o1 o1 o1) 1)"], ["(= (ft o2 o2 o1) 1)"],
+         ["(ba o2 o1)", "(ba o2 o2)"],
          ["(= (d o1 o1) 4)", "(= (d o1 o2) 1)"], ["(= (d o2 o2) 2)", "(= (d o2 o1) 3)", "(= (d o1 o1) 5)"]]
 GOALS = [[], ["(p o1)"], ["(q o2)", "(g)"], ["(>= (f o1) 2)"], ["(p o1)", "(<= (+ (f o1) (c)) 10)"], ["(= (c) 3)"], ["(r o1 o1)"], ["(>= (d o1 o1) 3)"], ["(< (d o1 o2) (d o2 o1))"]]
-CORRUPT_INIT = ["(zz o1)", "(p)", "(p o1 o2)", "(p nobody)", "(s o1)", "(= (zz o1) 1)", "(= (f) 1)", "(= (f o1 o2) 1)", "(= (f nobody) 1)",
+CORRUPT_INIT = ["(ba o1 o1)", "(ba o1 o2)", "(bt o1 o1 o1)", "(zz o1)", "(p)", "(p o1 o2)", "(p nobody)", "(s o1)", "(= (zz o1) 1)", "(= (f) 1)", "(= (f o1 o2) 1)", "(= (f nobody) 1)",
                 "(= (f o1) abc)", "(= (f o1))", "(r o1)", "(p (o1))"]
-CORRUPT_GOAL = ["(zz o1)", "(p o1 o2)", "(p nobody)", "(s o1)", "(>= (zz) 1)", "(>= (f o1 o2) 1)"]
+CORRUPT_GOAL = ["(ba o1 o1)", "(zz o1)", "(p o1 o2)", "(p nobody)", "(s o1)", "(>= (zz) 1)", "(>= (f o1 o2) 1)"]
 
 
 def random_problems(rnd, n):
